@@ -77,7 +77,13 @@ CHECKS = {
          "c07",
          "Every node position and MMR size up to the bound (65 536 quick / 1 048 576 thorough nodes), every (size,pos) of family_branch, every leaf count up to 2 048 / 16 384 (push, root, peaks, validate, read-only views), every leaf of every MMR up to 96 / 320 leaves x every single corruption of element, position and path, all executed on the real code and compared with a forest built by definition with its own blake2b hashing. Exhaustive within these bounds; nothing sampled.",
          "Trusts blake2-rfc; positions >= 2^63 outside the domain; proof.mmr_size not mutated (excluded by the property).",
-         "DESIGN.md §4 C07"), "C18": ("model_checking",
+         "DESIGN.md §4 C07"), "C17": ("model_checking",
+         "controlled-scheduler (CHESS-style) exploration of the real Chain with real OS threads: every schedule up to a preemption bound, lock state mirrored for deadlock detection",
+         "c17",
+         "Under --cfg grin_verif every util::RwLock acquisition/release, the LMDB writer lock and the store's polling loops report to a scheduler owned by the harness: exactly one registered thread runs at a time, a thread whose request cannot be granted is disabled (a parked writer blocks new readers, as in parking_lot), 'no thread enabled' = deadlock. Every schedule with <= 1 preemption (quick; <= 2 thorough) of harnesses of 2-3 threads x 1-3 operations chosen to collide (competing fork blocks + reader, header-first + block + reader, block + validate_tx + get_unspent, miner template + block; thorough adds reorg + readers, validate + header, compact + block + reader, segmenter + block) runs on a fresh copy of a prepared chain. Oracles: no deadlock/livelock/panic, operations return only what a correct node may return, a reported head names a stored block, observed total difficulty never decreases, the final best-chain state is one a sequential order of the operations produces, validate(false) passes.",
+         "Scheduling points are lock operations (data outside these locks is invisible to the scheduler); preemption bound 1/2; the store's resize thread is not modelled (databases stay below the resize threshold); header-chain memory is excluded from the serializability comparison (process_block commits its header step separately by design).",
+         "DESIGN.md §4 C17 + Appendix A"),
+ "C18": ("model_checking",
          "explicit-state exploration of batch operation sequences on the real LMDB Store against a nested-transaction map model; exhaustive growth sequences forcing map resizes; crash-point enumeration around commit",
          "c18",
          "Every sequence up to depth 7 (quick) / 9 (thorough) over {batch, child (two nesting levels), put x6 over two key spaces, delete x3, commit, drop, reopen} runs on a real Store; after every operation every key is read inside the innermost open level (get_ser, exists, iter) and through the Store (outside view) and compared with a stack-of-overlays model: writes visible inside and in children, invisible outside until the outermost commit, all at once then, dropped levels leave no trace, a child's writes take effect only if every enclosing level commits, durable across reopen. Growth: every well-formed sequence of {48 KiB write, pair write, open iterator, drain iterator, reopen} on a store pre-filled to 65 % of its 1 MiB map (one or two automatic resizes): no operation fails, every committed value reads back byte-exact, iterators see their snapshot. Crash: a kill at every crash point around the commit of a flat and a nested two-key-space batch leaves all or nothing, all once commit returned.",
